@@ -14,7 +14,7 @@
    every run (round trips of library-produced frames; every truncation point
    of written cache files in the thorough tier, a stratified subset in quick). *)
 From Coq Require Import List Arith Bool String ZArith Lia.
-From PF Require Import Lib.ListX Gen.Tables Model.IO Model.IORun Proofs.IOProofs.
+From PF Require Import Lib.ListX Gen.Tables Model.IO Model.IORun Model.IOSup Model.IOSupRun Proofs.IOProofs Proofs.IOSupProofs.
 Import ListNotations.
 
 (* Finite-domain facts about the GENERATED storage-flag tables (proved by case
@@ -174,6 +174,91 @@ Print Assumptions materialize_writes_cache.
 Print Assumptions restored_converter_is_original.
 Print Assumptions crash_then_materialize.
 
+(* ================================================================== *)
+(* Statistics SUPPLIED to materialize (col_stats=...), derived datasets, and
+   generations (Model/IOSup.v).  `compute sup` is what steps 1-4 of materialize
+   produce under the statistics argument `sup`; as in dataset.py it is consulted
+   only in the compute branch. *)
+Section C11_supplied.
+  Variable tensor : Type.
+  Variable tdim : tensor -> nat.
+  Variable tsize : tensor -> nat -> nat.
+  Variable valid_nested valid_embed : nat -> nat -> tensor -> tensor -> bool.
+  Variable stats : Type.
+  Variable byte : Type.
+  Variable enc : payload tensor stats -> list byte.
+  Variable dec : list byte -> option (payload tensor stats).
+  Hypothesis H_dec_enc : forall x, dec (enc x) = Some x.
+  Hypothesis H_load_prefix_fails : forall x k, k < List.length (enc x) -> dec (firstn k (enc x)) = None.
+  Variable rows cout : Type.
+  Variable conv : stats -> rows -> option cout.
+  Variable compute : option stats -> tframe tensor * stats.
+  Hypothesis H_wf : forall s, tframe_wf tdim tsize valid_nested valid_embed (fst (compute s)).
+
+  Local Notation stepS := (IOSup.stepS tdim tsize valid_nested valid_embed enc dec conv compute).
+  Local Notation runS := (IOSup.runS tdim tsize valid_nested valid_embed enc dec conv compute).
+  Local Notation guarded := (IOSup.guarded tdim tsize valid_nested valid_embed enc dec conv compute).
+  Local Notation file_of := (IOSupProofs.file_of tensor stats byte enc compute).
+  Local Notation mat_of := (IOSupProofs.mat_of tensor stats).
+  Local Notation init := (IO.init tensor stats byte).
+
+  (* No call of any object -- live, new, derived, crashing, with any path /
+     col_stats combination -- ever rewrites a cache file that exists, complete
+     or cut short. *)
+  Theorem cache_file_never_rewritten : forall (w : world tensor stats byte) (e : eventS tensor stats rows) b,
+    fs w = Some b -> fs (fst (stepS w e)) = Some b.
+  Proof. eapply file_never_rewritten. Qed.
+
+  (* With a file present, materialize(path) on a DERIVED dataset is a no-op. *)
+  Theorem derived_materialize_is_noop : forall (w : world tensor stats byte) sel p sup,
+    isfile w = true -> fst (stepS w (DerivedMat sel p sup)) = w.
+  Proof. eapply derived_noop_when_file_exists. Qed.
+
+  (* materialize(path=p, col_stats=s) with no file writes the file of exactly
+     that computation (TensorFrame converted with s, the statistics s) ... *)
+  Theorem supplied_statistics_are_cached : forall (w : world tensor stats byte) s b,
+    file_of s b -> fs w = None ->
+    stepS w (EvS s (NewDatasetMaterialize rows true)) =
+      (MkW (Some b) (mat_of (compute s)), OS (OMat cout (fst (compute s)) (snd (compute s)))).
+  Proof. eapply supplied_write. Qed.
+
+  (* ... and every later new Dataset.materialize(path, col_stats = ANYTHING)
+     restores exactly it: no recomputation, whatever statistics it is handed. *)
+  Theorem restore_ignores_statistics_argument : forall (w : world tensor stats byte) s0 b s',
+    file_of s0 b -> fs w = Some b ->
+    stepS w (EvS s' (NewDatasetMaterialize rows true)) =
+      (MkW (Some b) (mat_of (compute s0)), OS (OMat cout (fst (compute s0)) (snd (compute s0)))).
+  Proof. eapply restore_ignores_supplied; eassumption. Qed.
+
+  (* All histories in which the statistics argument varies freely from call to
+     call and derived datasets call materialize(path) only while a file exists
+     (`guarded`: the path is never written from other rows): whatever a
+     materialize returns is the COMPLETE computation under one of the statistics
+     arguments that occur in the history -- never partial, never mixed. *)
+  Theorem supplied_history_never_partial : forall h : list (eventS tensor stats rows),
+    guarded init h ->
+    Forall (goodS tensor stats cout compute (sups h)) (snd (runS init h)).
+  Proof. intros h. eapply historyS_never_partial; eassumption. Qed.
+
+  (* Generations: select, save, load, select, save, load ... equals selecting
+     alone; saving and loading any number of times is invisible (in particular
+     no row count or other attribute of a LOADED frame survives a later
+     selection differently from the original's). *)
+  Theorem generations_are_transparent : forall (sels : list (tframe tensor -> tframe tensor)) t cs,
+    (forall f u, In f sels -> tframe_wf tdim tsize valid_nested valid_embed u ->
+                 tframe_wf tdim tsize valid_nested valid_embed (f u)) ->
+    tframe_wf tdim tsize valid_nested valid_embed t ->
+    generations tdim tsize valid_nested valid_embed enc dec sels t cs = Some (fold_left (fun a f => f a) sels t).
+  Proof. intros sels t cs. eapply generations_transparent; eassumption. Qed.
+End C11_supplied.
+
+Print Assumptions cache_file_never_rewritten.
+Print Assumptions derived_materialize_is_noop.
+Print Assumptions supplied_statistics_are_cached.
+Print Assumptions restore_ignores_statistics_argument.
+Print Assumptions supplied_history_never_partial.
+Print Assumptions generations_are_transparent.
+
 (* ------------------------------------------------------------------ *)
 (* The hypotheses are satisfiable together, on a non-trivial state: the toy
    codec of Model/IORun.v satisfies H_dec_enc and H_load_prefix_fails, and the
@@ -214,3 +299,31 @@ Example ex_featureless_roundtrip :
   let t := MkTF [] [] (Some (ex_i64 [0; 1; 2; 3; 4]%Z)) (Some 5) in
   c_tframe_wfb t = true /\ c_save_load t 0%Z = OMat ccout t 0%Z.
 Proof. vm_compute. split; reflexivity. Qed.
+
+(* statistics supplied at the first materialize are cached; the next process is
+   handed other statistics and still restores the cached ones *)
+Example ex_supplied_then_restore :
+  snd (runS ct_dim ct_size c_valid_nested c_valid_embed cenc cdec cconv
+         (fun s => (ex_frame, match s with Some d => d | None => 0%Z end))
+         (init ctensor cstats cbyte)
+         [EvS (Some 5%Z) (NewDatasetMaterialize crows true); EvS (Some 9%Z) (NewDatasetMaterialize crows true);
+          EvS None (NewDatasetMaterialize crows true)]) =
+  [OS (OMat ccout ex_frame 5%Z); OS (OMat ccout ex_frame 5%Z); OS (OMat ccout ex_frame 5%Z)].
+Proof. vm_compute. reflexivity. Qed.
+
+(* Outside the quantifier (`guarded` fails): with NO file yet a derived dataset
+   writes ITS frame with the parent's statistics; the next full-table
+   materialize(path) restores that foreign cache.  (The reviewer's witness:
+   len(ds) = 4, tensor_frame.num_rows = 2.) *)
+Definition ex_sel (t : tframe ctensor) : tframe ctensor := MkTF [] [] None (Some 2).
+Example ex_foreign_cache_of_a_derived_dataset :
+  snd (runS ct_dim ct_size c_valid_nested c_valid_embed cenc cdec cconv (fun _ => (ex_frame, 77%Z))
+         (init ctensor cstats cbyte)
+         [EvS None (Materialize crows false); DerivedMat ex_sel true None; EvS None (NewDatasetMaterialize crows true)]) =
+  [OS (OMat ccout ex_frame 77%Z); ODerived false; OS (OMat ccout (MkTF [] [] None (Some 2)) 77%Z)].
+Proof. vm_compute. reflexivity. Qed.
+
+(* three generations through the toy codec *)
+Example ex_generations :
+  c_generations [(fun t => t); ex_sel; (fun t => t)] ex_frame 3%Z = Some (MkTF [] [] None (Some 2)).
+Proof. vm_compute. reflexivity. Qed.
